@@ -52,9 +52,9 @@ func c16FeeQuotes() merchant_api.FeeQuotes {
 	return merchant_api.FeeQuotes{{FeeType: merchant_api.FeeTypeStandard, MiningFee: merchant_api.Fee{Satoshis: 77, Bytes: 1000}, RelayFee: merchant_api.Fee{Satoshis: 11, Bytes: 1000}}}
 }
 
-var c16Kinds = []string{"GetTx", "GetHeaders", "GetHeader", "SendTx", "SaveTxs", "ReprocessTx", "MarkHeaderInvalid", "MarkHeaderNotInvalid", "GetFeeQuotes"}
+var c16Kinds = []string{"GetTx", "GetHeaders", "GetHeadersRecent", "GetHeader", "SendTx", "SaveTxs", "ReprocessTx", "MarkHeaderInvalid", "MarkHeaderNotInvalid", "GetFeeQuotes"}
 
-func c16Rejectable(kind string) bool { return kind != "GetHeaders" }
+func c16Rejectable(kind string) bool { return kind != "GetHeaders" && kind != "GetHeadersRecent" }
 
 // c16Server answers requests of one connection according to the round's script.
 type c16Script struct {
@@ -65,8 +65,8 @@ type c16Script struct {
 }
 
 func c16Key(kind string, h bitcoin.Hash32, height int) string {
-	if kind == "GetHeaders" {
-		return fmt.Sprintf("%s/%d", kind, height)
+	if kind == "GetHeaders" || kind == "GetHeadersRecent" {
+		return fmt.Sprintf("GetHeaders/%d", height)
 	}
 	if kind == "GetFeeQuotes" {
 		return kind
@@ -81,6 +81,11 @@ func (s *c16Script) response(c *c16Call) MessagePayload {
 	case "GetHeaders":
 		h := vHeader(uint32(c.height))
 		return &Headers{RequestHeight: int32(c.height), StartHeight: uint32(c.height), Headers: []*wire.BlockHeader{&h}}
+	case "GetHeadersRecent":
+		// "most recent": the request height is -1, the first header sits at some real height -
+		// here the height another pending call may be asking for
+		h := vHeader(c.Seed)
+		return &Headers{RequestHeight: -1, StartHeight: c.Seed, Headers: []*wire.BlockHeader{&h}}
 	case "GetHeader":
 		return &Header{Header: vHeader(c.Seed), BlockHeight: c.Seed, IsMostPOW: true}
 	case "GetFeeQuotes":
@@ -205,8 +210,17 @@ func (s *c16Script) sendNoise(vc *vconn, r *rand.Rand) {
 	case 3:
 		vc.send(&Header{Header: vHeader(seed), BlockHeight: seed})
 	case 4:
-		hd := vHeader(seed)
-		vc.send(&Headers{RequestHeight: int32(seed), StartHeight: seed, Headers: []*wire.BlockHeader{&hd}})
+		// an unsolicited headers push (request height zero) whose first header sits at a height a
+		// pending call is asking for
+		s.mu.Lock()
+		for _, c := range s.byKey {
+			if c.Kind == "GetHeaders" {
+				seed = uint32(c.height)
+			}
+		}
+		s.mu.Unlock()
+		hd := vHeader(seed + 777777)
+		vc.send(&Headers{RequestHeight: 0, StartHeight: seed, Headers: []*wire.BlockHeader{&hd}})
 	case 5:
 		vc.send(&Accept{MessageType: MessageTypeSendTx}) // no hash
 	}
@@ -221,6 +235,17 @@ func c16DoCall(e *cEnv, c *c16Call) {
 		if err == nil {
 			if tx == nil || *tx.TxHash() != c.key {
 				c.valueErr = "returned transaction is not the one requested"
+			} else {
+				c.okValue = true
+			}
+		}
+	case "GetHeadersRecent":
+		h, err := e.rc.GetHeaders(vQuiet, -1, 1)
+		c.err = err
+		if err == nil {
+			want := vHeader(c.Seed)
+			if h == nil || h.RequestHeight != -1 || len(h.Headers) != 1 || *h.Headers[0].BlockHash() != *want.BlockHash() {
+				c.valueErr = "returned headers are not the answer to the most-recent (-1) request"
 			} else {
 				c.okValue = true
 			}
@@ -287,6 +312,8 @@ func c16MakeCall(kind string, seed uint32) *c16Call {
 		c.key = *h.BlockHash()
 	case "GetHeaders":
 		c.height = int(seed)
+	case "GetHeadersRecent":
+		c.height = -1
 	}
 	return c
 }
@@ -315,6 +342,7 @@ func TestVerif_C16(t *testing.T) {
 		ncalls := 2 + r.Intn(23)
 		var calls []*c16Call
 		usedFee := false
+		usedRecent := false
 		for i := 0; i < ncalls; i++ {
 			kind := c16Kinds[r.Intn(len(c16Kinds))]
 			if kind == "GetFeeQuotes" {
@@ -323,7 +351,20 @@ func TestVerif_C16(t *testing.T) {
 				}
 				usedFee = true
 			}
+			if kind == "GetHeadersRecent" {
+				if usedRecent {
+					kind = "GetHeaders"
+				}
+				usedRecent = true
+			}
 			c := c16MakeCall(kind, uint32(1+ci*100+i))
+			if kind == "GetHeadersRecent" {
+				for _, o := range calls {
+					if o.Kind == "GetHeaders" {
+						c.Seed = uint32(o.height)
+					}
+				}
+			}
 			switch a := r.Intn(100); {
 			case a < 55:
 				c.Action = "answer"
